@@ -11,6 +11,8 @@ package main
 
 import (
 	"bytes"
+	"crypto/ed25519"
+	"encoding/binary"
 	"encoding/json"
 	"fmt"
 	"io"
@@ -81,8 +83,9 @@ func authOffsets(data []byte) []int {
 }
 
 type runner struct {
-	c   *vf.Ctx
-	rng *rand.Rand
+	c    *vf.Ctx
+	rng  *rand.Rand
+	aged bool // replayold: the earlier connection is two hours old
 }
 
 type observed struct {
@@ -103,8 +106,18 @@ func (r *runner) run(cf cfgT, pl planT, byteOff, bit int) observed {
 	node := map[string]*world.Node{"A": a, "B": b}
 	var old map[string][][]byte
 	if pl.Op == "replayold" {
-		first := linkworld.Connect(a, b, nil, 300*time.Millisecond)
-		old = first.Proxy.Transcript
+		var restamp func(p *linkworld.Proxy, m linkworld.Msg) [][]byte
+		if r.aged {
+			// the earlier connection happened two hours ago: what its sender signed carries the time of then
+			restamp = func(p *linkworld.Proxy, m linkworld.Msg) [][]byte {
+				if m.Dir != pl.Dir {
+					return nil
+				}
+				return [][]byte{agedCopy(m.Data, node[m.Dir].ID.PrivateKey, 2*time.Hour)}
+			}
+		}
+		first := linkworld.Connect(a, b, restamp, 300*time.Millisecond)
+		old = first.Proxy.Delivered
 		if first.LinkA == nil || first.LinkB == nil {
 			r.c.Broken("replayold: the earlier clean connection failed: %v %v", first.ErrA, first.ErrB)
 			return observed{}
@@ -113,6 +126,18 @@ func (r *runner) run(cf cfgT, pl planT, byteOff, bit int) observed {
 		b.Peer.CloseLink(a.ID.IP)
 		first.Proxy.Close()
 		time.Sleep(5 * time.Millisecond)
+		if r.aged {
+			// ... and the two routers have met since
+			mid := linkworld.Connect(a, b, nil, 300*time.Millisecond)
+			if mid.LinkA == nil || mid.LinkB == nil {
+				r.c.Broken("replayold: the connection between then and now failed: %v %v", mid.ErrA, mid.ErrB)
+				return observed{}
+			}
+			a.Peer.CloseLink(b.ID.IP)
+			b.Peer.CloseLink(a.ID.IP)
+			mid.Proxy.Close()
+			time.Sleep(5 * time.Millisecond)
+		}
 		if pl.Forgot {
 			// the receiver of the replayed message lost its state: same identity, fresh stack
 			if pl.Dir == "A" {
@@ -234,6 +259,23 @@ func (r *runner) run(cf cfgT, pl planT, byteOff, bit int) observed {
 	}
 	res.Proxy.Close()
 	return o
+}
+
+// agedCopy: the same handshake message as its sender would have produced it `age` ago (time stamp moved back, signed
+// again with the sender's key). data carries the 2-byte length prefix of the link framing.
+func agedCopy(data []byte, key ed25519.PrivateKey, age time.Duration) []byte {
+	d := append([]byte(nil), data...)
+	body := d[2:]
+	if len(body) < 48+64 {
+		return d
+	}
+	stamp := binary.BigEndian.Uint64(body[8:16])
+	binary.BigEndian.PutUint64(body[8:16], stamp-uint64(age.Milliseconds()))
+	ttl := body[1]
+	body[1] = 0
+	copy(body[len(body)-64:], ed25519.Sign(key, body[:len(body)-64]))
+	body[1] = ttl
+	return d
 }
 
 func main() { vf.Main("C04", "model_checking", run) }
@@ -853,7 +895,25 @@ func run(c *vf.Ctx) {
 			c.Sample(map[string]any{"cfg": o.Cfg, "plan": o.Plan, "observed": ob})
 		}
 	}
-	c.Stage("R", map[string]any{"setups": len(keys), "impl_level_drift": drift})
+	// the same replays with an earlier connection of two hours ago (and a meeting of the two routers since)
+	aged := 0
+	r.aged = true
+	for _, k := range keys {
+		o := plans[k]
+		if o.Plan.Op != "replayold" || o.Plan.Forgot {
+			continue
+		}
+		ob := r.run(o.Cfg, o.Plan, -1, 0)
+		record(o, ob)
+		if !allowed[k][fmt.Sprintf("%v/%v", ob.RegA, ob.RegB)] {
+			drift++
+			c.Logf("drift: %s (aged) real outcome %v/%v, model %v", k, ob.RegA, ob.RegB, allowed[k])
+		}
+		c.Distinct(k + "|aged")
+		aged++
+	}
+	r.aged = false
+	c.Stage("R", map[string]any{"setups": len(keys) + aged, "replays_of_a_two_hour_old_connection": aged, "impl_level_drift": drift})
 	c.Logf("R: %d set-ups, drift %d", len(keys), drift)
 
 	if c.Thorough() {
